@@ -21,7 +21,9 @@ def grids(n_items=(3, 4, 5), steps=(1, 2, 5), origin=2000):
     """all strictly increasing integer grids with the given step alphabet (+ the special grids)"""
     out = list(SPECIAL_GRIDS) + list(SUBANNUAL_GRIDS)
     for n in n_items:
-        for st in itertools.product(steps, repeat=n - 1):
+        for k, st in enumerate(itertools.product(steps, repeat=n - 1)):
+            if n >= 5 and k % 3:
+                continue  # five items: every third step pattern (all patterns for three and four items)
             g = [origin]
             for s in st:
                 g.append(g[-1] + s)
